@@ -110,7 +110,7 @@ let do_ws role mode maxframe recvmax recvtext hex cuts =
   let server = role = "s" and isstream = mode = "s" in
   let cfg = { c_server = server; c_isstream = isstream; c_maxframe = n_of_string maxframe;
               c_recvmax = eff_recvmax c16_DIALER_COPIES_RECVMAX server (n_of_string recvmax); c_recv_text = recvtext = "1";
-              c_allocmax = allocmax } in
+              c_allocmax = allocmax; c_ctl_counts = c16_RECVMAX_COUNTS_CONTROL } in
   let d = bytes_of_hex hex in
   let ps = pieces d (parse_cuts cuts (List.length d)) in
   let st = ref ws_dinit and evs = ref [] in
